@@ -2,7 +2,7 @@
 from vlib.spec import Cond, I, B
 from harness import core, fam, ctx
 from harness.fam import conc, concb
-from harness.prog import (check_history, TaskD, SEQ, Y, TASK, ITEM, WITH, TRY, SYNC, RAISE, READ, LAZY,
+from harness.prog import (CONST, check_history, TaskD, SEQ, Y, TASK, ITEM, WITH, TRY, SYNC, RAISE, READ, LAZY,
                           ERRFUT, OBJ)
 from asynq import _debug as _adebug
 
@@ -38,6 +38,9 @@ def comp_ctxraise(which, k, nest, guardmode, kk, v):
 
 
 def comp_stack(depth, limit, v, side=0):
+    if side >= 2:
+        # room for the caller's own stack entries and the sibling's items below the nested call
+        depth, limit = depth + 3, limit + 5
     t = fam.chain("leaf", 1, 0, v)
     for i in range(depth):
         t = TaskD("n%d" % i, Y(0, TASK(t)))
@@ -46,6 +49,12 @@ def comp_stack(depth, limit, v, side=0):
         # down the other branch: the aborted computation leaves a pending batch bigger than any of the canary's
         sib = TaskD("side", Y(17, ITEM(0, v + 30), ITEM(0, v + 31), ITEM(0, v + 32)))
         t = TaskD("top", Y(4, TASK(sib), TASK(t)))
+    if side >= 2:
+        # the runaway computation sits below a nested synchronous call made by a task that already holds a pending
+        # item of its own
+        t = TaskD("outer", SEQ(Y(0, CONST(v)), SYNC(0, TASK(t)), Y(0, ITEM(1, v + 40))))
+        if side == 3:
+            t = TaskD("outer0", Y(4, TASK(t), TASK(fam.chain("osib", 1, 1, v + 44))))
     old = [None]
 
     def setup():
@@ -87,8 +96,8 @@ def mk_hist_stack():
     def f(depth, limit, side, v):
         can = canary(v + 50)
         can["check_stale_after"] = True
-        comps = [comp_stack(conc(depth, 6), 1 + conc(limit, 6), v, conc(side, 2)), can]
-        return check_history(comps, sig=("hstack", conc(depth, 6), conc(limit, 6), conc(side, 2)))
+        comps = [comp_stack(conc(depth, 6), 1 + conc(limit, 6), v, conc(side, 4)), can]
+        return check_history(comps, sig=("hstack", conc(depth, 6), conc(limit, 6), conc(side, 4)))
     return f
 
 
@@ -128,7 +137,7 @@ def conds(tier):
                     [I("variant", 0, 2), I("kp", 0, 1), I("ka", 0, 1), I("pos", 0, 2), I("p0"), I("p1"), I("ho", 0, 1),
                      I("v")], pin=2, budget=100, family="tasks created at top level and waited for inside a task / "
                     "created inside a task and waited for at top level", encodes=core.ENC_SCHED))
-    out.append(Cond("hist_stack", mk_hist_stack(), [I("depth", 0, 5), I("limit", 0, 5), I("side", 0, 1), I("v")], pin=1,
+    out.append(Cond("hist_stack", mk_hist_stack(), [I("depth", 0, 5), I("limit", 0, 5), I("side", 0, 3), I("v")], pin=1,
                     budget=100, family="F-HIST [MAX_TASK_STACK_SIZE RuntimeError, canary]", encodes=core.ENC_SCHED))
     out.append(Cond("tree", core.mk_tree(P, 3, 2, 2), core.tree_params(3, 2, 2), builds=("C", "P"), pin=3, budget=120,
                     family="F-TREE(3,2,2)", encodes=core.ENC_SCHED))
